@@ -103,9 +103,13 @@ struct Compiler {
 
 impl Compiler {
     fn new(max_group: usize) -> Compiler {
+        Compiler::new_with_options(max_group, Default::default())
+    }
+
+    fn new_with_options(max_group: usize, options: RegexOptions) -> Compiler {
         Compiler {
             b: VMBuilder::new(max_group),
-            options: Default::default(),
+            options,
             atomic_depth: 0,
         }
     }
@@ -558,7 +562,19 @@ pub(crate) fn compile_inner(inner_re: &str, options: &RegexOptions) -> Result<Ra
 
 /// Compile the analyzed expressions into a program.
 pub fn compile(info: &Info<'_>) -> Result<Prog> {
-    let mut c = Compiler::new(info.end_group);
+    compile_with(Compiler::new(info.end_group), info)
+}
+
+/// Compile the analyzed expressions into a program, building the delegated pieces with the
+/// given options (size limits).
+pub(crate) fn compile_with_options(info: &Info<'_>, options: &RegexOptions) -> Result<Prog> {
+    compile_with(
+        Compiler::new_with_options(info.end_group, options.clone()),
+        info,
+    )
+}
+
+fn compile_with(mut c: Compiler, info: &Info<'_>) -> Result<Prog> {
     c.visit(info, false)?;
     c.b.add(Insn::End);
     Ok(c.b.build())
